@@ -305,6 +305,7 @@ class Evaluator(object):
                 if self.loopstack and len(self.loopstack) > fr.loop_depth:
                     fr.failed = True  # a return from inside a loop of the helper: not modelled
                 fr.returns.append((t, self.pc))
+                fr.return_envs.append(dict(env))
                 return None
             s = self.site("return", st, term=t, value_node=st.value)
             self.summary.returns.append(s)
@@ -467,7 +468,17 @@ class Evaluator(object):
                                 r = _root_name(x)
                                 if r:
                                     names.add(r)
-                elif isinstance(n, ast.Expr) and isinstance(n.value, ast.Call):
+                if isinstance(n, ast.Call) and isinstance(n.func, ast.Name) and n.func.id in self.module.funcs and ("%s.%s" % (self.module.name, n.func.id)) not in KNOWN_FUNCS:
+                    # a new helper may change its list / array arguments in place; it is evaluated in place (try_inline)
+                    g_ = self.module.funcs[n.func.id]
+                    touched = _params_written_in_place(g_)
+                    for i_, a_ in enumerate(n.args):
+                        if isinstance(a_, ast.Name) and i_ < len(g_.params) and g_.params[i_] in touched:
+                            names.add(a_.id)
+                    for k in n.keywords:
+                        if isinstance(k.value, ast.Name) and k.arg in touched:
+                            names.add(k.value.id)
+                if isinstance(n, ast.Expr) and isinstance(n.value, ast.Call):
                     cal = n.value
                     if isinstance(cal.func, ast.Attribute) and cal.func.attr in MUTATOR_METHODS:
                         r = _root_name(cal.func.value)
@@ -505,8 +516,33 @@ class Evaluator(object):
                 return
         self.assign(target, tm.mk("iter", it, lid), env, node)
 
+    def _unroll_elements(self, it):
+        """elements of a loop over a literal collection (at most 16), or None"""
+        if it.op in ("tuple", "list") and 1 <= len(it.a) <= 16:
+            return list(it.a)
+        if it.op == "call" and tm.callee_name(it.a[0]) == ".items" and len(it.a[1]) == 1 and it.a[1][0].op == "dict" and 1 <= len(it.a[1][0].a) <= 16:
+            return [tm.tup(list(kv.a)) for kv in it.a[1][0].a]
+        if it.op == "call" and tm.callee_name(it.a[0]) == "builtins.zip" and len(it.a[1]) >= 2 and all(z.op in ("tuple", "list") for z in it.a[1]) and 1 <= min(len(z.a) for z in it.a[1]) <= 16:
+            n = min(len(z.a) for z in it.a[1])
+            return [tm.tup([z.a[i] for z in it.a[1]]) for i in range(n)]
+        if it.op == "call" and tm.callee_name(it.a[0]) == "builtins.enumerate" and len(it.a[1]) == 1 and not it.a[2]:
+            inner = self._unroll_elements(it.a[1][0])
+            if inner is not None:
+                return [tm.tup([tm.const(i), x]) for i, x in enumerate(inner)]
+        return None
+
     def for_stmt(self, st, env):
         it = self.ev(st.iter, env)
+        elems = self._unroll_elements(it) if UNROLL else None
+        if elems is not None and not st.orelse and not any(isinstance(n, (ast.Break, ast.Continue)) for n in _own_loop_nodes(st)):
+            # a loop over a literal collection is its unrolling
+            cur = env
+            for e in elems:
+                self.assign(st.target, e, cur, st)
+                cur = self.run_keep_pc(st.body, cur)
+                if cur is None:
+                    return None
+            return cur
         self.nloops += 1
         lid = "L%d" % self.nloops
         self.summary.loops[lid] = (st, it)
@@ -769,6 +805,9 @@ class Evaluator(object):
                 v = _literal_of_node(self.module.const_nodes[name])
                 if v is not _NOLIT:
                     return tm.const(v)
+                t = self._new_table(self.module.name, name)
+                if t is not None:
+                    return t
             return tm.glob(q)
         if name in self.module.classes:
             return tm.mk("class", "%s.%s" % (self.module.name, name))
@@ -815,6 +854,19 @@ class Evaluator(object):
     def ev_Name(self, node, env):
         return self.lookup(node.id, env, node)
 
+    def _new_table(self, modname, name):
+        """A module-level name that is not in the reference inventory and is bound to a tuple / list / dict display
+        (a table a maintainer introduced): its uses read the display itself."""
+        if self.func is None:
+            return None
+        env = self.S._modenv.get(modname)
+        if not env:
+            return None
+        t = env.get(name)
+        if t is not None and t.op in ("tuple", "list", "dict", "set") and name not in _mutated_globals(self.P.modules[modname]):
+            return t
+        return None
+
     def ev_Attribute(self, node, env):
         base = self.ev(node.value, env)
         return self.attr_of(base, node.attr, node)
@@ -835,6 +887,9 @@ class Evaluator(object):
                         v = _literal_of_node(m.const_nodes[name])
                         if v is not _NOLIT:
                             return tm.const(v)
+                        t = self._new_table(q, name)
+                        if t is not None:
+                            return t
                     return tm.glob(qq)
                 if name in m.classes:
                     return tm.mk("class", "%s.%s" % (q, name))
@@ -1029,7 +1084,7 @@ class Evaluator(object):
         dist = self.distribute_ite(fn, args, kw, node, via_filter) if self._wants_distribution(fn, args, kw) else None
         if dist is not None:
             return dist
-        inl = self.try_inline(fn, args, kw, node)
+        inl = self.try_inline(fn, args, kw, node, caller_env=env)
         if inl is not None:
             return inl
         t = self.apply(fn, args, kw)
@@ -1126,7 +1181,7 @@ class Evaluator(object):
         self.pc = saved
         return tm.ite(c, out[0], out[1])
 
-    def try_inline(self, fn, args, kw, node):
+    def try_inline(self, fn, args, kw, node, caller_env=None):
         """A call of a repo function that is not part of the reference inventory (a helper introduced after the
         rules were written) is evaluated in place: its statements are walked in the caller's context, so the rules see
         the same sites, terms and path conditions as if the code had never been extracted.  Returns the result term,
@@ -1182,8 +1237,10 @@ class Evaluator(object):
             self.inline_frames.pop()
             self.module, self.closure = saved_module, saved_closure
         rets = list(fr.returns)
+        ret_envs = list(fr.return_envs)
         if out is not None:
             rets.append((tm.none(), end_pc))
+            ret_envs.append(out)
         if fr.failed or not rets:
             # give up: forget what the walk recorded and treat the call as opaque
             del self.summary.sites[n_sites:]
@@ -1204,17 +1261,44 @@ class Evaluator(object):
             return cs
 
         result = rets[-1][0]
+        conds_of = []
         for t_, pc_ in reversed(rets[:-1]):
             cs = rel_cond(pc_)
             if cs is None:
                 del self.summary.sites[n_sites:]
                 self.pc = saved_pc
                 return None
+            conds_of.append(cs)
             if not cs:
                 result = t_
                 continue
             c = cs[0] if len(cs) == 1 else tm.boolop("and", cs)
             result = tm.ite(c, t_, result)
+        # in-place effects of the helper on its arguments (lst.append(...), a[i] = ...) are effects on the caller's
+        # variables: a plain-name argument is re-bound to what the parameter holds at the helper's exits
+        if caller_env is not None and isinstance(node, ast.Call) and len(ret_envs) == len(rets):
+            bound = []
+            for i, an in enumerate(node.args[: len(g.params)]):
+                if isinstance(an, ast.Name):
+                    bound.append((g.params[i], an.id, args[i] if i < len(args) else None))
+            for k in node.keywords:
+                if k.arg in names and isinstance(k.value, ast.Name):
+                    bound.append((k.arg, k.value.id, dict(kw).get(k.arg)))
+            rebound = {x.id for st_ in g.node.body for x in ast.walk(st_) if isinstance(x, ast.Name) and isinstance(x.ctx, ast.Store)}
+            for pn, cname, init in bound:
+                if init is None or cname not in caller_env or pn in rebound:
+                    continue
+                finals = [e.get(pn, init) for e in ret_envs]
+                if all(f_ is init for f_ in finals):
+                    continue
+                merged = finals[-1]
+                for f_, cs in zip(reversed(finals[:-1]), conds_of):
+                    if not cs:
+                        merged = f_
+                        continue
+                    c = cs[0] if len(cs) == 1 else tm.boolop("and", cs)
+                    merged = tm.ite(c, f_, merged)
+                caller_env[cname] = merged
         # what the caller knows afterwards: the helper did not raise
         keep = tuple(it for it in rets[-1][1][fr.base_len:] if it[0] == "if" and it[3] == "raise")
         self.pc = saved_pc + keep
@@ -1243,10 +1327,108 @@ def _literal_of_node(node):
     return _NOLIT
 
 
+UNROLL = True
+
+
+def _params_written_in_place(g):
+    """parameters of a helper that its body stores into, augments or calls a mutator method on"""
+    out = set()
+    ps = set(g.params)
+    for n in ast.walk(g.node):
+        if isinstance(n, (ast.Subscript, ast.Attribute)) and isinstance(n.ctx, (ast.Store, ast.Del)):
+            r = _root_name(n)
+            if r in ps:
+                out.add(r)
+        elif isinstance(n, ast.AugAssign):
+            r = _root_name(n.target)
+            if r in ps:
+                out.add(r)
+        elif isinstance(n, ast.Call) and isinstance(n.func, ast.Attribute) and n.func.attr in MUTATOR_METHODS:
+            r = _root_name(n.func.value)
+            if r in ps:
+                out.add(r)
+        elif isinstance(n, ast.Call):
+            for k in n.keywords:
+                if k.arg == "out":
+                    r = _root_name(k.value)
+                    if r in ps:
+                        out.add(r)
+    return out
+
+
+def _mutated_globals(module):
+    """module-level names that some code stores into, updates in place or hands out for mutation: not constant tables"""
+    cached = getattr(module, "_mutated_globals", None)
+    if cached is not None:
+        return cached
+    out = set()
+    top = set(module.const_nodes)
+    for n in ast.walk(module.tree):
+        if isinstance(n, ast.Global):
+            out.update(n.names)
+        elif isinstance(n, (ast.Subscript, ast.Attribute)) and isinstance(n.ctx, (ast.Store, ast.Del)):
+            r = _root_name(n)
+            if r in top:
+                out.add(r)
+        elif isinstance(n, ast.AugAssign):
+            r = _root_name(n.target)
+            if r in top:
+                out.add(r)
+        elif isinstance(n, ast.Call) and isinstance(n.func, ast.Attribute) and n.func.attr in MUTATOR_METHODS:
+            r = _root_name(n.func.value)
+            if r in top:
+                out.add(r)
+    # a mutable display that escapes (bound to another name, passed on, returned) may be written through the alias:
+    # only tuples, and lists / dicts that are merely indexed, searched, measured or iterated, stay constant tables
+    parents = {}
+    for n in ast.walk(module.tree):
+        for ch in ast.iter_child_nodes(n):
+            parents[ch] = n
+    for n in ast.walk(module.tree):
+        if isinstance(n, ast.Name) and isinstance(n.ctx, ast.Load) and n.id in top and n.id not in out:
+            node = module.const_nodes.get(n.id)
+            if isinstance(node, ast.Tuple):
+                continue
+            par = parents.get(n)
+            ok = False
+            if isinstance(par, ast.Subscript) and par.value is n and isinstance(par.ctx, ast.Load):
+                ok = True
+            elif isinstance(par, ast.Attribute) and par.value is n and par.attr in ("get", "items", "keys", "values", "index", "count"):
+                ok = True
+            elif isinstance(par, ast.For) and par.iter is n:
+                ok = True
+            elif isinstance(par, ast.comprehension) and par.iter is n:
+                ok = True
+            elif isinstance(par, ast.Compare) and n in par.comparators and all(isinstance(o, (ast.In, ast.NotIn)) for o in par.ops):
+                ok = True
+            elif isinstance(par, ast.Call) and isinstance(par.func, ast.Name) and par.func.id in ("len", "sorted", "tuple", "list", "dict", "set", "frozenset", "enumerate", "zip") and n in par.args:
+                ok = True
+            if not ok:
+                out.add(n.id)
+    module._mutated_globals = out
+    return out
+
+
+def _own_loop_nodes(st):
+    """statements of a loop body that belong to this loop (not to a nested loop or function)"""
+    out = []
+    stack = list(st.body)
+    while stack:
+        n = stack.pop()
+        out.append(n)
+        if isinstance(n, (ast.For, ast.While, ast.FunctionDef, ast.Lambda, ast.ClassDef)):
+            continue
+        for ch in ast.iter_child_nodes(n):
+            if isinstance(ch, ast.stmt) or isinstance(ch, ast.excepthandler):
+                stack.append(ch)
+    return out
+
+
 class _InlineFrame(object):
     def __init__(self, base_len):
         self.base_len = base_len
         self.returns = []  # (term, pc)
+        self.return_envs = []  # helper environment at each return (for in-place effects on arguments)
         self.failed = False
 
 
